@@ -277,10 +277,11 @@ class Renderer(object):
             if self.head_one_line:
                 self.nobreak = 1
             c["_line_result"] = self.line
-            self.emit(c["result"])
-            self.gap()
-            self.emit("=")
-            self.gap()
+            if c["result"] is not None:     # EEMS 2.0 form: no 'Result ='
+                self.emit(c["result"])
+                self.gap()
+                self.emit("=")
+                self.gap()
             c["_line"] = self.line
             self.emit(c["command"])
             self.gap()
